@@ -23,7 +23,7 @@ def write_layout(base, files):
     for rel, text in files.items():
         p = os.path.join(base, rel)
         os.makedirs(os.path.dirname(p), exist_ok=True)
-        with open(p, 'w') as f:
+        with open(p, 'w', encoding='utf-8', newline='') as f:
             f.write(text)
 
 
@@ -78,6 +78,8 @@ def inproc(case, base):
     os.chdir(base)
     try:
         module = case.get('module')
+        for extra in reversed(case.get('pythonpath') or []):
+            sys.path.insert(0, os.path.join(base, extra))      # as PYTHONPATH=<extra> would
         if module:
             sys.path.insert(0, os.path.abspath(os.curdir))
             script_file = kernprof.find_module_script(module)
@@ -90,7 +92,7 @@ def inproc(case, base):
             out['modname'] = None
         prof_mod = list(case['prof_mod'])
         it = AC.Interner()
-        with open(script_file) as f:
+        with open(script_file, encoding='utf-8') as f:
             text = f.read()
         out['orig'] = AC.conv_module(ast.parse(text), it)
         try:
@@ -128,13 +130,17 @@ def inproc(case, base):
 def e2e(case, base):
     """kernprof in a subprocess; returns the keys of the written stats."""
     tail = ['-m', case['module']] if case.get('module') else [case['script']]
+    env = dict(os.environ)
+    if case.get('pythonpath'):
+        env['PYTHONPATH'] = os.pathsep.join([os.path.join(base, x) for x in case['pythonpath']]
+                                            + [env.get('PYTHONPATH', '')])
     # a program that does not run cleanly under plain python says nothing about kernprof
-    plain = subprocess.run([sys.executable] + tail, cwd=base, env=dict(os.environ), stdout=subprocess.PIPE,
+    plain = subprocess.run([sys.executable] + tail, cwd=base, env=env, stdout=subprocess.PIPE,
                            stderr=subprocess.PIPE, text=True, timeout=120)
     if plain.returncode != 0:
         return dict(malformed=True, rc=None, keys=None, stdout='', stderr=plain.stderr[-400:])
     cmd = [sys.executable, '-m', 'kernprof', '-l', '-o', 'out.lprof'] + list(case['cli']) + tail
-    p = subprocess.run(cmd, cwd=base, env=dict(os.environ), stdout=subprocess.PIPE, stderr=subprocess.PIPE,
+    p = subprocess.run(cmd, cwd=base, env=env, stdout=subprocess.PIPE, stderr=subprocess.PIPE,
                        text=True, timeout=120)
     res = dict(rc=p.returncode, stderr=p.stderr[-600:], stdout=p.stdout[-300:], keys=None)
     f = os.path.join(base, 'out.lprof')
